@@ -53,6 +53,9 @@ TIESKEL = ["JanetModel.Peg.TieSkel." + t for t in (
         "if", "ifnot", "not", "drop", "only_tags", "sub", "accumulate", "capture", "position", "constant", "group", "nth", "error",
         "nchar", "notnchar", "line", "column", "argument", "replace", "matchtime", "range", "look", "capture_num", "literal", "set",
         "to", "thru", "til", "lenprefix", "between", "split", "unref", "gettag", "backmatch", "choice", "sequence", "readint"))]
+# the two fuel-hypothesis cases restated about the whole run (fuel monotonicity, Peg/FuelMono.lean)
+TIESKELRUN = ["JanetModel.Peg.TieSkel." + t for t in (
+    "between_returns_of_run", "split_returns_of_run", "between_returns_any_fuel", "split_returns_any_fuel")]
 ENTRIES = ("match", "find", "findall", "replace", "replaceall")
 
 
@@ -648,6 +651,8 @@ def run(ctx, only_cases=None):
             ctx.broken.append(msg)
             sk_broken = sk_broken + [msg]
     broken += sk_broken
+    if not sk_broken:
+        broken += ctx.obligations("JanetModel.Peg.TieSkelRun", TIESKELRUN)
     tie_info["ir_rules_changed_but_proved_equal"] = [] if sk_broken else [r for r in tie_info["cases_changed"] if r in gen_pegskel.IR_RULES]
     if not quick:
         ok, log = ctx.leanchecker("JanetModel.Props.C12")
